@@ -1,8 +1,9 @@
 #!/bin/sh
-# tools/seed_import.sh Cxx : imports /tmp/Cxx-out/change{1,2} as Cxx-s1/s2 one at a time (global lock), logs to out/logs
-P=$1
+# tools/seed_import.sh Cxx [offset] : imports /tmp/Cxx-out/change{1,2} as Cxx-s<offset+1>/s<offset+2> one at a time (global lock)
+P=$1; OFF=${2:-0}
 cd "$(dirname "$0")/.." || exit 2
 for i in 1 2; do
   [ -d /tmp/$P-out/change$i ] || continue
-  flock /var/tmp/seed-import.lock tools/seeded.py import /tmp/$P-out/change$i --id $P-s$i --props $P > out/logs/seed-$P-s$i.log 2>&1
+  N=$((OFF + i))
+  flock /var/tmp/seed-import.lock tools/seeded.py import /tmp/$P-out/change$i --id $P-s$N --props $P > out/logs/seed-$P-s$N.log 2>&1
 done
